@@ -478,7 +478,17 @@ def op_strategy(draw, kind, h_us, span_us):
     step = draw(st.sampled_from([h_us, h_us // 2, h_us * 3, draw(go.uniform_int(h_us // 10, 5 * h_us))]))
     whole = draw(st.integers(0, 9)) < 5
     nsteps = draw(st.integers(0, 40)) * 100 + (0 if whole else draw(st.integers(1, 99)))
-    d = dict(op=name, start_us=start, step_us=step, nsteps_x100=nsteps, back=draw(st.integers(0, 3)) == 0,
+    back = draw(st.integers(0, 3)) == 0
+    if kind == "keplernum" and draw(st.booleans()):
+        # half of the numerical propagator's ranges stay inside the input class where its iteration
+        # contract is not already a listed finding: forward, on the integration grid, >= 8 steps
+        k = draw(st.integers(8, 40))
+        step = draw(st.sampled_from([h_us, h_us // 2, h_us // 3]))
+        nsteps = k * 100 * (h_us // step)
+        back = False
+        if start_kind == "before":
+            start = -draw(st.integers(1, 20)) * h_us
+    d = dict(op=name, start_us=start, step_us=step, nsteps_x100=nsteps, back=back,
              stop_as_td=draw(st.booleans()), neg_step=draw(st.booleans()), explicit_start=draw(st.booleans()))
     if name == "partial":
         d["k"] = draw(st.integers(0, 5))
@@ -519,7 +529,9 @@ def check(case):
     tags = m.run()
     kinds = {t for t in tags if t in ("propagate", "iter_range", "iter_dates", "iter_daterange", "ephem", "iter_listeners", "iter_own",
                                        "rebind", "rebind_other", "partial_consume")}
-    special = {"backward", "step-not-dividing", "shorter-than-interp-order", "stop-off-grid"} & set(tags)
+    # an op that failed as a listed known finding and after which the history went on also counts:
+    # what follows it runs on objects that have been through a failing call
+    special = {"backward", "step-not-dividing", "shorter-than-interp-order", "stop-off-grid", "known-finding-op"} & set(tags)
     return dict(nt=len(kinds) >= 2 and bool(special), cls=sorted(set(tags)), known=m.known)
 
 
@@ -590,7 +602,7 @@ FINDINGS = {
 
 def _facet(kind, quick, thorough):
     return Facet(kind, (lambda s, t, k=kind: history(k)), check, setup=setup,
-                 rule=">= 2 different kinds of call on the same objects and at least one backward / non-dividing / short / off-grid range",
+                 rule=">= 2 different kinds of call on the same objects and at least one backward / non-dividing / short / off-grid range (or an op excluded as a listed known finding, after which the history continued)",
                  quick=quick, thorough=thorough, shrink_quick=True)
 
 
